@@ -167,10 +167,24 @@ class Purity:
         finally:
             self._callables.pop()
 
-    def _analyse(self, path, qual, func, pname, cls_key, depth):
+    def analyse_seeds(self, path, qual, func, seeds):
+        """like analyse(), but the initial alias set is a set of names / dotted chains (e.g. 'Y.composition')"""
+        cls_key = None
+        if '.' in qual:
+            try:
+                cls_key = self.ix.class_key(path, qual.split('.')[0])
+            except Exception:
+                cls_key = None
+        self._callables.append(set())
+        try:
+            return self._analyse(path, qual, func, None, cls_key, 0, seeds=frozenset(seeds))
+        finally:
+            self._callables.pop()
+
+    def _analyse(self, path, qual, func, pname, cls_key, depth, seeds=None):
         g = C.build(func)
         IN = {n.id: None for n in g.nodes}
-        IN[g.entry.id] = frozenset([pname])
+        IN[g.entry.id] = frozenset([pname]) if seeds is None else seeds
         work = [g.entry.id]
         while work:
             nid = work.pop()
